@@ -109,5 +109,10 @@ example : convertNewShareToDecToken (ofInt 1000) (1000 * one) (400 * one) = 400 
 /-- non-vacuity: 5 % of 1 000 000 shares -/
 example : (1000000 * one : Dec) - cut (1000000 * one) (50000000000000000) = 950000 * one := by decide
 
+/-- the value function the statements above are about is what the source says now (regenerated on every run) -/
+theorem position_value_is_the_source (s : Dec) (v : ValInfo) (a : Asset) :
+    Generated.GetDelegationTokensWithShares s v a = delegationTokensWithShares s v a :=
+  ArithTie.getDelegationTokensWithShares_is_source s v a
+
 end C06
 end Alliance
